@@ -2,6 +2,8 @@
 //! Private names used: `SignedAnnounce { key, timestamp, signature }`, `system_time`,
 //! `MAX_TIMESTAMP_TOLERANCE`.
 use super::*;
+#[allow(unused_imports)]
+use crate::verif_env::k as kani;
 use crate::verif_env::{oracle, wall};
 
 fn ref_signable(info_hash: &[u8; 20], t: u64) -> [u8; 28] {
